@@ -1,6 +1,74 @@
-(** Property C04 -- placeholder until the proofs land (statements only in this file). *)
-From Coq Require Import Lia.
+(** Property C04 -- the unsafe output window behaves as a byte queue and never leaves its allocation.
+    Statements only; proofs are [exact <lemma>].  Model: coq/model/RingBuffer.v (hand model of ringbuffer.rs, tied
+    to the code by the correspondence run: states, contents and the arguments of every copy_bytes_overshooting call).
+    All statements are for EVERY chunk size k >= 1 (the code uses 16 with SSE2/NEON, 8 otherwise), every state
+    satisfying the documented invariants, every operand. *)
+From Coq Require Import String Arith Bool Lia ZArith List.
+Import ListNotations.
 Require Import Zrs.model.RingBuffer.
-Theorem C04_new_inv : Inv new_rb.
-Proof. unfold Inv, new_rb, live; cbn. repeat split; intros; try lia. Qed.
-Print Assumptions C04_new_inv.
+Require Import Zrs.proofs.C04_Basics Zrs.proofs.C04_Within Zrs.proofs.C04_Append Zrs.proofs.C04_Ops Zrs.proofs.C04_Run.
+
+(** the documented invariants hold initially *)
+Theorem C04_inv_init : Inv new_rb /\ abs new_rb = [].
+Proof. exact (conj new_inv new_abs). Qed.
+
+(** one operation: either it completes, keeps the invariants and acts on the represented bytes exactly like the
+    byte-queue specification [qstep]; or the Rust code panics and the operation was outside its documented
+    precondition.  In particular it never faults (no out-of-bounds access, no read of a never-written cell, no
+    overlapping copy_nonoverlapping), including the deliberate over-copy. *)
+Theorem C04_step : forall k s o, 1 <= k -> Inv s -> op_contract o ->
+  (exists s', step k s o = Done s' /\ Inv s' /\ qstep (abs s) o (abs s')) \/
+  (exists e, step k s o = Panic e /\ ~ op_pre s o).
+Proof. exact step_ok. Qed.
+
+Theorem C04_step_no_fault : forall k s o, 1 <= k -> Inv s -> op_contract o -> forall e, step k s o <> Fault e.
+Proof. exact step_no_fault. Qed.
+
+(** every reachable state, by induction over arbitrary operation sequences from any state satisfying the invariants *)
+Theorem C04_run : forall k ops, 1 <= k -> Forall op_contract ops -> forall s, Inv s ->
+  (forall e, run k s ops <> Fault e) /\
+  (forall s', run k s ops = Done s' -> Inv s' /\ qrun (abs s) ops (abs s')).
+Proof. exact run_ok. Qed.
+
+(** the unsafe function itself, under exactly its two documented requirements *)
+Theorem C04_unchecked_copy : forall k s start n,
+  Inv s -> 0 < cap s -> start + n <= len s -> n <= free s -> 1 <= k ->
+  exists s', extend_from_within_unchecked k s start n = Done s' /\ Inv s' /\
+             cap s' = cap s /\ head s' = head s /\ len s' = len s + n /\
+             abs s' = abs s ++ firstn n (skipn start (abs s)).
+Proof. exact within_refines. Qed.
+
+(** the overshoot never leaves the regions it is told it owns *)
+Theorem C04_overshoot_bounded : forall k sl dl n, 1 <= k -> n <= sl -> n <= dl ->
+  n <= touched k sl dl n <= Nat.min sl dl.
+Proof. exact touched_bounds. Qed.
+
+(** reserve: contents preserved, room guaranteed *)
+Theorem C04_reserve : forall s amount, Inv s ->
+  exists s', reserve s amount = Done s' /\ Inv s' /\ abs s' = abs s /\ len s' = len s /\
+             amount <= free s' /\ (0 < amount -> 0 < cap s') /\ cap s <= cap s'.
+Proof. exact reserve_ok. Qed.
+
+(** one slot always stays free *)
+Theorem C04_one_slot_free : forall s, Inv s -> 0 < cap s -> len s + free s = cap s - 1.
+Proof. exact len_free. Qed.
+
+Print Assumptions C04_inv_init.
+Print Assumptions C04_step.
+Print Assumptions C04_step_no_fault.
+Print Assumptions C04_run.
+Print Assumptions C04_unchecked_copy.
+Print Assumptions C04_overshoot_bounded.
+Print Assumptions C04_reserve.
+Print Assumptions C04_one_slot_free.
+
+(** non-vacuity: a wrapped state with source and destination both straddling the end satisfies the hypotheses,
+    and the unit-test traces of the crate (capacity 17 / 33) are instances of [run]. *)
+Definition ex_ops : list op :=
+  [OReserve 15; OExtend (map Z.of_nat (seq 0 10)); ODrop 8; OExtend (map Z.of_nat (seq 10 8)); OWithin 1 4].
+Example C04_wrapped_instance :
+  match run 16 new_rb ex_ops with
+  | Done s => tail s < head s /\ abs s = [8; 9; 10; 11; 12; 13; 14; 15; 16; 17; 9; 10; 11; 12]%Z
+  | _ => False
+  end.
+Proof. vm_compute. split; [lia|reflexivity]. Qed.
